@@ -55,14 +55,29 @@ func gen(g *GenCtx) {
 		n = 3000 / g.Parts
 	}
 	id := 0
+	pol := ""
 	emit := func(kinds, loss string, early int, gos [][]string) {
 		id++
-		g.Op("new %d kinds=%s loss=%s early=%d yseed=%d", id, kinds, loss, early, g.R.Intn(1<<30))
+		g.Op("new %d kinds=%s loss=%s early=%d%s yseed=%d", id, kinds, loss, early, pol, g.R.Intn(1<<30))
 		for _, l := range gos {
 			g.Op("go %s", strings.Join(l, " "))
 		}
 		g.Op("end")
 	}
+	// One whole batch (they share the stretched critical sections): Stop with a large backlog while
+	// a delay spike towards the writer ends.  The acknowledgements that were held back arrive in a
+	// stream around the moment Stop's fallback forces the tube closed, each of them opening the
+	// window for frames of the backlog.  Nothing may panic, Stop returns, the tube ends closed.
+	pol = " ypol=locks"
+	for k := 0; k < batchSize; k++ {
+		if k%4 == 3 {
+			// the same against the lastAck timer (4*RTT after the Close that follows the peer's FIN)
+			emit("r", fmt.Sprintf("spike:%d", 100+100*(k/4)+g.R.Intn(80)), 0, [][]string{{"a", "wm0:500", "sl:30", "c0", "sl:2500", "stop"}, {"b", "c0", "sl:3000", "stop"}})
+			continue
+		}
+		emit("r", fmt.Sprintf("spike:%d", 700+25*k+g.R.Intn(25)), 0, [][]string{{"a", fmt.Sprintf("wm0:%d", Pick(g.R, []int{400, 600, 900})), "stop"}, {"b", "sl:3000", "stop"}})
+	}
+	pol = ""
 	// fixed shapes: the graceful paths, simultaneous close, close on a dead network, stop with
 	// open tubes, stop on both sides at once, I/O after close
 	emit("r", "none", 0, [][]string{{"a", "w0:100", "c0", "wc0", "r0:10", "w0:5", "c0"}, {"b", "r0:200", "c0", "wc0", "r0:10"}, {"a", "sl:400", "stop"}, {"b", "sl:400", "stop"}})
@@ -74,6 +89,12 @@ func gen(g *GenCtx) {
 	emit("r", "total", 1, [][]string{{"a", "c0"}, {"a", "w0:10"}, {"a", "sl:100", "stop"}, {"b", "sl:100", "stop"}})
 	emit("r", "oneway", 0, [][]string{{"a", "c0", "wc0"}, {"b", "r0:10", "c0", "wc0"}, {"a", "sl:1500", "stop"}, {"b", "sl:1500", "stop"}})
 
+	// tubes opened and closed at once while the program runs (Close racing with the initiation
+	// goroutine's first steps and with the peer's answer), on a healthy and on a dead network
+	for _, loss := range []string{"none", "none", "p30", "total"} {
+		emit("r", loss, 0, [][]string{{"a", "nu:0", "nu:0", "nu:20", "nu:60", "nu:150", "nu:400"}, {"b", "nu:0", "nr:0", "nu:40", "nr:40", "nu:100"},
+			{"a", "nr:0", "nr:10", "nr:80", "nr:250"}, {"a", "sl:300", "stop"}, {"b", "sl:300", "stop"}})
+	}
 	for c := 0; c < n; c++ {
 		nt := 1 + g.R.Intn(3)
 		kinds := ""
@@ -109,8 +130,10 @@ func gen(g *GenCtx) {
 					l = append(l, fmt.Sprintf("c%d", t))
 				case x < 84:
 					l = append(l, fmt.Sprintf("wc%d", t))
-				case x < 90:
+				case x < 88:
 					l = append(l, "stop")
+				case x < 92:
+					l = append(l, fmt.Sprintf("n%s:%d", Pick(g.R, []string{"u", "u", "r"}), Pick(g.R, []int{0, 0, 10, 40, 120, 500})))
 				default:
 					l = append(l, fmt.Sprintf("sl:%d", Pick(g.R, []int{1, 5, 30, 120})))
 				}
@@ -143,6 +166,61 @@ type memConn struct {
 	loss   string
 	sent   int
 	rng    *Rng
+
+	// loss "spike:<ms>": a delay spike in the direction b -> a.  From the start of the program b's
+	// datagrams are held back; <ms> after a's first Stop began they are delivered, in order, one
+	// every millisecond, and so is everything b sends afterwards (see releaseAfter).
+	held     [][]byte
+	holding  bool
+	pacing   bool
+	paceDone chan struct{}
+}
+
+func (c *memConn) isSpikeSender() bool {
+	return strings.HasPrefix(c.loss, "spike:") && c.addr.IP[len(c.addr.IP)-1] == 2
+}
+
+// releaseAfter ends the delay spike d from now: the held datagrams are handed to the peer one by
+// one.  Called on b's conn when side a starts to Stop.
+func (c *memConn) releaseAfter(d time.Duration) {
+	c.mu.Lock()
+	if !c.holding || c.pacing {
+		c.mu.Unlock()
+		return
+	}
+	c.pacing = true
+	c.mu.Unlock()
+	go func() {
+		defer close(c.paceDone)
+		select {
+		case <-time.After(d):
+		case <-c.closed:
+			return
+		}
+		idle := 0
+		for idle < 900 { // ends 0.9 s after the last datagram
+			c.mu.Lock()
+			var p []byte
+			if len(c.held) > 0 {
+				p, c.held = c.held[0], c.held[1:]
+			}
+			c.mu.Unlock()
+			if p != nil {
+				idle = 0
+				select {
+				case c.peer.in <- p:
+				default:
+				}
+			} else {
+				idle++
+			}
+			select {
+			case <-c.closed:
+				return
+			case <-time.After(time.Millisecond):
+			}
+		}
+	}()
 }
 
 func newPair(caseNo int, loss string, seed uint64) (*memConn, *memConn) {
@@ -155,7 +233,15 @@ func newPair(caseNo int, loss string, seed uint64) (*memConn, *memConn) {
 	return a, b
 }
 
-func (c *memConn) setLoss(on bool) { c.mu.Lock(); c.lossOn = on; c.mu.Unlock() }
+func (c *memConn) setLoss(on bool) {
+	c.mu.Lock()
+	c.lossOn = on
+	if on && c.isSpikeSender() && c.paceDone == nil {
+		c.holding = true
+		c.paceDone = make(chan struct{})
+	}
+	c.mu.Unlock()
+}
 
 func (c *memConn) drop() bool {
 	c.mu.Lock()
@@ -165,7 +251,7 @@ func (c *memConn) drop() bool {
 	}
 	c.sent++
 	switch {
-	case c.loss == "none":
+	case c.loss == "none" || strings.HasPrefix(c.loss, "spike:"):
 		return false
 	case c.loss == "total":
 		return true
@@ -226,6 +312,15 @@ func (c *memConn) WriteMsg(b []byte) error {
 	if c.drop() {
 		return nil
 	}
+	c.mu.Lock()
+	if c.holding {
+		if len(c.held) < 1<<16 {
+			c.held = append(c.held, append([]byte(nil), b...))
+		}
+		c.mu.Unlock()
+		return nil
+	}
+	c.mu.Unlock()
 	p := append([]byte(nil), b...)
 	select {
 	case c.peer.in <- p:
@@ -257,7 +352,22 @@ func (c *memConn) SetWriteDeadline(time.Time) error { return nil }
 var yieldSeed atomic.Uint64
 var yieldCtr atomic.Uint64
 
+// slowLocks (header ypol=locks, set for a whole batch): the critical sections of the tube's lifecycle
+// lock are stretched - a frame being received holds the lock for 0.2-0.5 ms, a close transition for
+// 3 ms before it closes the sender - so that whoever else wants the lock queues up behind them.
+var slowLocks atomic.Bool
+
 func yield(site string) {
+	if slowLocks.Load() {
+		switch site {
+		case "Reliable.receive.locked":
+			time.Sleep(time.Duration(200+yieldCtr.Add(1)%4*100) * time.Microsecond)
+			return
+		case "Reliable.enterClosedState.marked":
+			time.Sleep(3 * time.Millisecond)
+			return
+		}
+	}
 	n := yieldCtr.Add(1)
 	z := (yieldSeed.Load() + n) * 0x9E3779B97F4A7C15
 	z = (z ^ (z >> 30)) * 0xBF58476D1CE4E5B9
@@ -278,6 +388,7 @@ func yield(site string) {
 type trEntry struct {
 	addr  string
 	id    byte
+	inc   int
 	site  string
 	state int32
 }
@@ -285,9 +396,26 @@ type trEntry struct {
 var trMu sync.Mutex
 var trLog []trEntry
 
+// A program may open tubes while it runs, and an identifier is free again once its tube has been
+// reaped: the second tube object seen for one (muxer, id) is called `r0#2` in the trace, so that the
+// monitor starts it from the initial state.
+var incOf = map[tubes.Tube]int{}
+var incNext = map[string]int{}
+
+// incarnation: callers hold trMu
+func incarnation(r tubes.Tube) int {
+	if n, ok := incOf[r]; ok {
+		return n
+	}
+	k := fmt.Sprintf("%s/%v/%d", r.LocalAddr().String(), r.IsReliable(), r.GetID())
+	incNext[k]++
+	incOf[r] = incNext[k]
+	return incNext[k]
+}
+
 func logState(r *tubes.Reliable, site string, state int32) {
 	trMu.Lock()
-	trLog = append(trLog, trEntry{r.LocalAddr().String(), r.GetID(), site, state})
+	trLog = append(trLog, trEntry{r.LocalAddr().String(), r.GetID(), incarnation(r), site, state})
 	trMu.Unlock()
 }
 
@@ -300,6 +428,7 @@ type program struct {
 	loss   string
 	early  bool
 	yseed  uint64
+	ypol   string
 	gos    [][]string
 	bad    bool
 }
@@ -321,8 +450,14 @@ type caseRun struct {
 	calls []*callRec
 	info  []string
 	out   []string
+	extra []extraTube // reliable tubes opened by the program itself
 
 	skipped bool
+}
+
+type extraTube struct {
+	side string
+	r    *tubes.Reliable
 }
 
 func errClass(err error) string {
@@ -341,12 +476,22 @@ func errClass(err error) string {
 	return "err"
 }
 
+func incSuffix(n int) string {
+	if n <= 1 {
+		return ""
+	}
+	return fmt.Sprintf("#%d", n)
+}
+
 func tubeName(side string, t tubes.Tube) string {
 	k := "u"
 	if t.IsReliable() {
 		k = "r"
 	}
-	return fmt.Sprintf("%s.%s%d", side, k, t.GetID())
+	trMu.Lock()
+	suffix := incSuffix(incarnation(t))
+	trMu.Unlock()
+	return fmt.Sprintf("%s.%s%d%s", side, k, t.GetID(), suffix)
 }
 
 // guarded runs f on its own goroutine under the watchdog; a panic in f is the result "panic"
@@ -427,6 +572,20 @@ func (cr *caseRun) run() {
 	}
 	cr.ca.setLoss(true)
 	cr.cb.setLoss(true)
+	// tubes the program opens itself are accepted by the peer and left to its Stop
+	progDone := make(chan struct{})
+	defer close(progDone)
+	for _, s := range []string{"a", "b"} {
+		go func(ch chan tubes.Tube) {
+			for {
+				select {
+				case <-ch:
+				case <-progDone:
+					return
+				}
+			}
+		}(accepted[s])
+	}
 
 	// the program
 	var wg sync.WaitGroup
@@ -454,6 +613,17 @@ func (cr *caseRun) run() {
 	}
 	cr.ca.Close()
 	cr.cb.Close()
+	for _, c := range []*memConn{cr.ca, cr.cb} {
+		c.mu.Lock()
+		pd, started := c.paceDone, c.pacing
+		c.mu.Unlock()
+		if pd != nil && started {
+			<-pd
+		}
+	}
+	for _, x := range cr.extra {
+		tb[x.side] = append(tb[x.side], x.r)
+	}
 	for _, s := range []string{"a", "b"} {
 		for _, t := range tb[s] {
 			if r, ok := t.(*tubes.Reliable); ok && r != nil {
@@ -485,6 +655,9 @@ func (cr *caseRun) doOp(gi int, side, op string, mux map[string]*tubes.Muxer, tb
 		kind = strings.TrimRight(body, "0123456789")
 		idx, _ = strconv.Atoi(body[len(kind):])
 	}
+	if kind == "nu" || kind == "nr" {
+		return cr.createAndClose(gi, side, kind == "nr", arg, mux[side])
+	}
 	var t tubes.Tube
 	name := side
 	if kind != "stop" {
@@ -497,6 +670,10 @@ func (cr *caseRun) doOp(gi int, side, op string, mux map[string]*tubes.Muxer, tb
 	var f func() string
 	switch kind {
 	case "stop":
+		if side == "a" && cr.cb.isSpikeSender() {
+			ms, _ := strconv.Atoi(cr.cb.loss[len("spike:"):])
+			cr.cb.releaseAfter(time.Duration(ms) * time.Millisecond)
+		}
 		f = func() string { mux[side].Stop(); return "ok" }
 	case "c":
 		f = func() string { return errClass(t.Close()) }
@@ -509,6 +686,16 @@ func (cr *caseRun) doOp(gi int, side, op string, mux map[string]*tubes.Muxer, tb
 				return "short"
 			}
 			return errClass(err)
+		}
+	case "wm": // <arg> one-byte writes, i.e. <arg> frames; reported as one Write
+		kind = "w"
+		f = func() string {
+			for k := 0; k < arg; k++ {
+				if n, err := t.Write([]byte{byte(k)}); err != nil || n != 1 {
+					return errClass(err)
+				}
+			}
+			return "ok"
 		}
 	case "r":
 		f = func() string {
@@ -524,6 +711,11 @@ func (cr *caseRun) doOp(gi int, side, op string, mux map[string]*tubes.Muxer, tb
 	default:
 		return true
 	}
+	return cr.record(gi, kind, name, f)
+}
+
+// record runs f under the watchdog and logs the call; false when it did not return
+func (cr *caseRun) record(gi int, kind, name string, f func() string) bool {
 	rec := &callRec{g: gi, op: kind, tube: name, start: cr.seq.Add(1)}
 	res, ok := guarded(f, callWatchdog)
 	rec.end = cr.seq.Add(1)
@@ -532,6 +724,40 @@ func (cr *caseRun) doOp(gi int, side, op string, mux map[string]*tubes.Muxer, tb
 	cr.calls = append(cr.calls, rec)
 	cr.mu.Unlock()
 	return ok
+}
+
+// createAndClose (ops nu:<µs>, nr:<µs>): open a new tube on this side while the program runs and
+// close it <µs> later - at once, while its initiation goroutine has not run yet, or around the
+// arrival of the peer's answer - then wait for it.  Close and WaitForClose are ordinary recorded
+// calls on the new tube.
+func (cr *caseRun) createAndClose(gi int, side string, rel bool, delayUs int, m *tubes.Muxer) bool {
+	var t tubes.Tube
+	var err error
+	if rel {
+		var r *tubes.Reliable
+		r, err = m.CreateReliableTube(common.ExecTube)
+		t = r
+	} else {
+		var u *tubes.Unreliable
+		u, err = m.CreateUnreliableTube(common.ExecTube)
+		t = u
+	}
+	if err != nil {
+		return true // the muxer is stopping: nothing was created
+	}
+	if r, ok := t.(*tubes.Reliable); ok {
+		cr.mu.Lock()
+		cr.extra = append(cr.extra, extraTube{side, r})
+		cr.mu.Unlock()
+	}
+	if delayUs > 0 {
+		time.Sleep(time.Duration(delayUs) * time.Microsecond)
+	}
+	name := tubeName(side, t)
+	if !cr.record(gi, "c", name, func() string { return errClass(t.Close()) }) {
+		return false
+	}
+	return cr.record(gi, "wc", name, func() string { t.WaitForClose(); return "ok" })
 }
 
 func (cr *caseRun) render(tr []trEntry) {
@@ -548,7 +774,7 @@ func (cr *caseRun) render(tr []trEntry) {
 		default:
 			continue
 		}
-		*o = append(*o, fmt.Sprintf("tr %s.r%d %s %s", side, e.id, e.site, tubes.VerifStateNames[e.state]))
+		*o = append(*o, fmt.Sprintf("tr %s.r%d%s %s %s", side, e.id, incSuffix(e.inc), e.site, tubes.VerifStateNames[e.state]))
 	}
 	sort.SliceStable(cr.calls, func(i, j int) bool { return cr.calls[i].end < cr.calls[j].end })
 	for _, c := range cr.calls {
@@ -580,6 +806,8 @@ func parseProgram(lines []string) *program {
 			p.early = v == "1"
 		case "yseed":
 			p.yseed, _ = strconv.ParseUint(v, 10, 64)
+		case "ypol":
+			p.ypol = v
 		}
 	}
 	if p.kinds == "" || len(p.kinds) > 8 || strings.Trim(p.kinds, "ru") != "" {
@@ -631,8 +859,15 @@ func run(in *bufio.Scanner, out *bufio.Writer) {
 		batch := make([]*caseRun, 0, j-i)
 		trMu.Lock()
 		trLog = nil
+		incOf = map[tubes.Tube]int{}
+		incNext = map[string]int{}
 		trMu.Unlock()
 		var wg sync.WaitGroup
+		slow := false
+		for _, p := range progs[i:j] {
+			slow = slow || p.ypol == "locks"
+		}
+		slowLocks.Store(slow)
 		for _, p := range progs[i:j] {
 			cr := &caseRun{p: p}
 			batch = append(batch, cr)
